@@ -27,4 +27,8 @@ CLAIMED = {
   technique="TLA+ reference editor + VT100 screen model (LineEdit.tla) model-checked by TLC; state-graph edge cover replayed on vterm_automate and vtermxx; every key event validated by TLC (exec lines, signal, accessors, screen reached by the echoed bytes, guards)",
   text="The reference editor (insert/BS/arrows/delete/history/CR-LF pairing/Ctrl-C/unknown escapes) is finite for a given capacity and history depth, so TLC covers key sequences of every length for cap 2-3 x depth 1-2 (cap 2-4 x depth 1-3 thorough) and checks the bounds invariants; every edge is replayed on the C automaton and its C++ twin; TLC interprets the bytes the implementation echoed with a VT100 model and requires the screen to show the reference line and cursor, the execute callback to receive the reference line (NUL terminated), and the guard bytes around line and history buffers to be intact. The sline API (bulk insert, multi-delete, getline) is judged against its reference too.",
   note=NOTE),
+ "C10": dict(
+  technique="TLA+ heap model (Alloc.tla: break, address-ordered free list, exact/best-fit/split/extend malloc, coalescing free, four-case realloc) model-checked by TLC for the tiling invariant; state-graph edge cover replayed on lin_malloc/lin_realloc; traces validated by a monitor (arena, alignment, disjointness, contents, restored break) and compared address-by-address with the model; pool monitor + LIFO model",
+  text="TLC checks over all alloc/free/realloc histories of 3 blocks (4 thorough) x request classes {0,64,128} within a bounded break that live and free chunks always tile [heap start, break) - no overlap, nothing lost, free list ordered and coalesced, all freed => initial break. Every edge is replayed on the real heap, random scripts add sizes around the header/rounding boundaries with LIFO/FIFO/random free order; TLC judges every event with the property monitor and compares the returned address, break and free list with the model (0 drift = the model is the code). Pools (pool_head, igris::pool, static_object_pool) are judged for exact capacity, reuse, free count, cell_is_allocated and guards.",
+  note=NOTE),
 }
